@@ -239,7 +239,9 @@ func c12Run(c *core.Ctx) {
 			for _, q := range []string{`"`, `'`} {
 				for _, tail := range []string{"", ` standalone="yes"`, ` standalone='no' `} {
 					for _, vq := range []string{`"`, `'`} {
-						for _, root := range []string{"", "<a/>", "\n<root>x</root>\n"} {
+						// bodies whose bytes contradict the label (Latin-1, a C1 byte, DEL):
+						// the declaration decides, not the byte statistics
+						for _, root := range []string{"", "<a/>", "\n<root>x</root>\n", "<a>caf\xe9</a>", "<a>Wait\x85 \x7f</a>"} {
 							decl := lead + `<?xml version=` + vq + `1.0` + vq + ` encoding=` + q + L + q + tail + `?>`
 							doc := decl + root
 							run([]byte(doc), len(decl), "text/xml", low, "xml-decl", L, real && vq == `"` && tail == "")
